@@ -300,6 +300,7 @@ type Report struct {
 	prog        *Program
 	NoWrite     bool
 	Broken      []string
+	KeyPrefix   string
 }
 
 func newReport(prop, level, tier string, prog *Program) *Report {
@@ -311,7 +312,7 @@ func newReport(prop, level, tier string, prog *Program) *Report {
 func (r *Report) Floor(rule string, n int) { r.floors[rule] = n }
 
 func (r *Report) Add(rule, key string, pos token.Pos, ok bool, detail string) *Obligation {
-	o := &Obligation{Rule: rule, Key: rule + ":" + key, OK: ok, Detail: detail}
+	o := &Obligation{Rule: rule, Key: rule + ":" + r.KeyPrefix + key, OK: ok, Detail: detail}
 	if r.prog != nil && pos.IsValid() {
 		o.Pos = r.prog.pos(pos)
 	}
